@@ -76,6 +76,42 @@ ItemLen(it) == it.hi - it.lo + 1
 MinAdaOf(o, cpb) == Mul(FromSmall(160 + ItemLen(o)), cpb)
 OutMinAdaOk(o, cpb) == Leq(MinAdaOf(o, cpb), OutValue(o).coin)
 
+\* ---- redeemers of a witness set (key 5): array form [[tag, index, data, ex_units], ...] or map form {[tag, index] => [data, ex_units]}
+Redeemers(ws) == IF ~HasK(ws, 5) THEN <<>> ELSE
+   LET r == GetK(ws, 5) IN
+   IF r.mt = 4 THEN [j \in 1..Len(r.kids) |-> [tag |-> Small(r.kids[j].kids[1].arg), ix |-> Small(r.kids[j].kids[2].arg), data |-> r.kids[j].kids[3], exu |-> r.kids[j].kids[4]]]
+   ELSE [j \in 1..(Len(r.kids) \div 2) |-> [tag |-> Small(r.kids[2*j-1].kids[1].arg), ix |-> Small(r.kids[2*j-1].kids[2].arg), data |-> r.kids[2*j].kids[1], exu |-> r.kids[2*j].kids[2]]]
+\* lexicographic order on byte strings (shorter prefix first)
+RECURSIVE LexLtC(_,_,_)
+LexLtC(a, b, i) == IF i > Len(a) THEN i <= Len(b) ELSE IF i > Len(b) THEN FALSE ELSE IF a[i] < b[i] THEN TRUE ELSE IF a[i] > b[i] THEN FALSE ELSE LexLtC(a, b, i+1)
+LexLt(a, b) == LexLtC(a, b, 1)
+\* ledger pointer rules: position in the SORTED collection
+\*   spending: inputs ordered by (transaction id bytes, index)
+InLt(x, y) == LexLt(x[1], y[1]) \/ (x[1] = y[1] /\ x[2] < y[2])
+SpendIx(body, key) == Cardinality({j \in 1..Len(Elems(body,0)) : InLt(InputKey(Elems(body,0)[j]), key)})
+\*   minting: policy ids ordered bytewise
+MintPolicies(body) == IF HasK(body, 9) THEN {GetK(body,9).kids[2*j-1].str : j \in 1..(Len(GetK(body,9).kids) \div 2)} ELSE {}
+MintIx(body, pol) == Cardinality({p \in MintPolicies(body) : LexLt(p, pol)})
+\*   certificates: position in the sequence (0-based); -1 when absent
+CertIx(B, body, certBytes) == LET cs == Elems(body, 4) S == {j \in 1..Len(cs) : Span(B, cs[j]) = certBytes} IN IF S = {} THEN -1 ELSE (CHOOSE j \in S : TRUE) - 1
+\*   rewards: withdrawals ordered as the ledger's Map RewardAccount: network, then script-hash credentials before key-hash
+\*   credentials (constructor order of Credential), then hash bytes. Raw byte order differs when key and script accounts mix.
+RewardAccounts(body) == IF HasK(body, 5) THEN {GetK(body,5).kids[2*j-1].str : j \in 1..(Len(GetK(body,5).kids) \div 2)} ELSE {}
+RaKey(r) == <<r[1] % 16, IF (r[1] \div 16) % 2 = 1 THEN 0 ELSE 1, SubSeq(r, 2, Len(r))>>
+RaLedgerLt(a, b) == LET x == RaKey(a) y == RaKey(b) IN x[1] < y[1] \/ (x[1] = y[1] /\ (x[2] < y[2] \/ (x[2] = y[2] /\ LexLt(x[3], y[3]))))
+RewardIxLedger(body, ra) == Cardinality({r \in RewardAccounts(body) : RaLedgerLt(r, ra)})
+RewardIxBytes(body, ra) == Cardinality({r \in RewardAccounts(body) : LexLt(r, ra)})
+\* ---- script-integrity preimage: redeemers bytes ++ datums bytes ++ language views (ledger's getLanguageView encoding)
+\*   PlutusV1 (id 0): key = CBOR bytes h'00', value = CBOR bytes wrapping the INDEFINITE-length list of the cost parameters;
+\*   PlutusV2/V3 (ids 1, 2): key = uint, value = definite-length list. Canonical key order: shorter encoded key first.
+\*   when there are datums but no redeemers the format is A0 | datums | A0
+LangView(v, costs) == IF v = 1 THEN EBytes(<<0>>) \o EBytes(EIndefArr([i \in 1..Len(costs) |-> ESInt(costs[i])]))
+                      ELSE EUInt(FromSmall(v - 1)) \o EArr([i \in 1..Len(costs) |-> ESInt(costs[i])])
+LangViews(langs, costOf(_)) == LET ord == <<2, 3, 1>> sel == SelectSeq(ord, LAMBDA v : v \in langs) IN
+                               EMapH(Len(sel)) \o Flat([i \in 1..Len(sel) |-> LangView(sel[i], costOf(sel[i]))])
+\* ---- Plutus execution cost and reference-script fee
+SumExUnits(reds) == [mem |-> SumSeqN(Len(reds), LAMBDA j : ArgN(reds[j].exu.kids[1])), steps |-> SumSeqN(Len(reds), LAMBDA j : ArgN(reds[j].exu.kids[2]))]
+
 \* ---- minimum fee: a * size + b (+ script and reference-script parts supplied by the caller)
 LinearMinFee(size, a, b) == Add(Mul(a, FromSmall(size)), b)
 ====
